@@ -45,6 +45,12 @@ T = {
  "C17": ("E6 vnet", "exhaustive enumeration of environment answer sequences (to a depth; beyond it deviation-bounded) for the real spawn() event loop running on real threads over a virtual socket and clock; arithmetic sweep of the Id <-> address conversion",
          "model_checking", "For every answer sequence within the bounds: on_start first and once; every on_msg corresponds to a delivered decodable IPv4 datagram with the right Id and message; every Send is one datagram to the encoded address, in order; a timer fires only while armed and not before the lower bound of its latest arming; every handler sees the previous state. Id<->address: 2^24 (thorough 2^32) addresses x 4 ports, 2^16 ports x 16 addresses, per-byte sweep.",
          "the actor threads run freely but only ever block in recv_from, which the controller answers at quiescence; the virtual clock ticks 1 ns per read; on_random is outside the statement; the 2^48 product space is covered per dimension, not jointly", "DESIGN §4 C17"),
+ "C18": ("E5 histories + C18 harness", "exhaustive enumeration of operation sequences/candidate returns on the three sequential specifications; explicit-state search over (system state, shadow history) pairs of register-harness systems built from scripted servers",
+         "model_checking", "is_valid_step == (invoke == ret) with equal resulting object when accepted; is_valid_history accepts exactly the invoked sequences; in every reachable state of every harness system the recorded history equals the history rebuilt from the client-visible calls and replies, every shadow call is well-formed, request ids are fresh and at most one operation is outstanding per client.",
+         "after a rejected step only the boolean is compared (the object is dead in every use the library makes of it); servers answer each request at most once with the request's id", "DESIGN §4 C18"),
+ "C19": ("C19 explorer", "exhaustive enumeration of action sequences (Path API), of request sequences to a live on-demand checker, and of fingerprint paths plus one-token corruptions against a live serve() over loopback HTTP",
+         "model_checking", "from_actions is Some exactly for executions and its accessors/encode agree with an independent walk; each check-fingerprint request evaluates exactly the requested pending state and run-to-completion finishes like BFS; GET /.states returns exactly the model's actions/successors/fingerprints for every execution and 404 for every corrupted path; /.status reports exact counts and paths that decode to genuine witnesses.",
+         "HTTP is spoken over the sandbox's loopback interface; requests are synchronised with the on-demand acknowledgement counter (hook), not with sleeps; ui/app.js (browser side) is not exercised", "DESIGN §4 C19"),
  "C20": ("C20 laws", "exhaustive enumeration of all small vector clocks (pairs, triples) and dense maps (construction orders, inserts, plans)",
          "model_checking", "Partial-order laws, equality up to trailing zeros, hash consistency, merge_max = least upper bound within the domain, increment strictly greater; dense maps order-independent, gap/duplicate rejection, insert semantics, rewrite moves values to rewritten keys.",
          "least-upper-bound minimality is checked against all upper bounds inside the enumerated domain", "DESIGN §4 C20"),
@@ -92,6 +98,8 @@ m = {
  "engines": [
    {"name": "E2 sched", "path": "harness/src/engines/e2.rs + harness/src/sched.rs", "serves_properties": ["C05","C12","C03"], "kind_free_text": "controlled scheduler over the real worker threads / job market: preemption-bounded stateless DFS over schedules, virtual clock"},
    {"name": "E6 vnet", "path": "harness/src/engines/e6.rs", "serves_properties": ["C17"], "kind_free_text": "virtual UDP socket + clock environment under the real spawn(); answer-sequence enumeration with deviation bounding"},
+   {"name": "C18 harness", "path": "harness/src/engines/c18.rs", "serves_properties": ["C18"], "kind_free_text": "register-harness systems: search over (state, shadow history)"},
+   {"name": "C19 explorer", "path": "harness/src/engines/c19.rs", "serves_properties": ["C19"], "kind_free_text": "Path API / on-demand request sequences / live Explorer over loopback HTTP"},
    {"name": "E3 actorstep", "path": "harness/src/engines/e3.rs", "serves_properties": ["C06","C07","C09"], "kind_free_text": "explicit enumeration of actor-system states/actions/handler outputs on the real ActorModel vs a reference interpreter; xplore over scripted systems"},
    {"name": "E4 identity", "path": "harness/src/engines/e4.rs", "serves_properties": ["C04"], "kind_free_text": "all pairs of small values: recording hasher stream, real fingerprint, component-wise identity"},
    {"name": "E5 histories", "path": "harness/src/engines/e5.rs", "serves_properties": ["C08","C14","C18"], "kind_free_text": "all small concurrent histories on the real testers vs definition-level search"},
